@@ -5,6 +5,22 @@
 // dump unchanged] -> migrate(v2 = v1 + fields/indexes/unique/check) [dump restricted to v1's
 // columns unchanged, added columns/indexes/constraints present, v1's still present] ->
 // records of the v2 type round-trip (Create; raw SQL and First) -> migrate(v2) [no DDL].
+//
+// Tag values NOT generated because their non-idempotence is caused by the external SQLite
+// dialector's DDL parser (gorm.io/driver/sqlite ddlmod.go), not by migrator/migrator.go:
+//   - default:(expr)  e.g. default:(abs(-5)), default:(lower('AB')): defaultValueRegexp strips the
+//     opening parenthesis only and reports "abs(-5))" as the column default
+//   - type:decimal(10,2): columnRegexp stops at the comma, the column type is mis-read
+//   - type:<int type>(N) on integer kinds (tinyint(1)): the parser reports N as a column length,
+//     which MigrateColumn compares with the field's bit size
+//
+// Deviations of /repo the engine reports (signatures):
+//   - v2_unique_constraint_missing / remigrate_v2_ddl:rebuild-adds-unique-constraint:
+//     a field added with `unique` gets its column but not its constraint (AutoMigrate's
+//     AddColumn branch); the next AutoMigrate of the same model rebuilds the table to add it
+//   - remigrate_v{1,2}_ddl:rebuild-without-change: a numeric default spelled differently from
+//     Go's rendering of the parsed value (default:1.0, default:0.0) makes every AutoMigrate
+//     rebuild the table (MigrateColumn compares the database's "1" with the tag text "1.0")
 package c20
 
 import (
@@ -788,20 +804,21 @@ var Engine = &core.Engine{
 	ID:    "C20",
 	Level: "exploration",
 	Rule: "per case a fresh in-memory SQLite database and the history migrate(v1) -> 1..5 rows by raw SQL + 0..2 by gorm Create -> migrate(v1) -> migrate(v2) -> Create of v2 records (single, slice) read back by raw SQL and First -> migrate(v2); " +
-		"6 of 8 cases: model types generated with reflect.StructOf (5 key shapes; 1..7 fields of 36 Go kinds incl. pointers, sql.Null*, a custom Scanner/Valuer, a json serializer field, embedded structs with prefix; tags column, default (literal, quoted, spaced, empty, null, function), not null, size, type, precision, comment, unique, check (named/unnamed), index (plain, named, sort, length, comment, unique, class, collate, expression, partial), uniqueIndex, composite indexes with priorities, permissions, autoCreate/UpdateTime); v2 = v1 + 0..4 fields + 0..3 index/unique/check tags on existing fields + composite indexes spanning old and new fields; " +
+		"6 of 8 cases: model types generated with reflect.StructOf (5 key shapes; 1..7 fields of 33 Go kinds incl. pointers, sql.Null*, a custom Scanner/Valuer, a json serializer field, embedded structs with prefix; tags column, default (literal, quoted, spaced, empty, null, function), not null, size, type, precision, comment, unique, check (named/unnamed), index (plain, named, sort, length, comment, unique, class, collate, expression, partial), uniqueIndex, composite indexes with priorities, permissions, autoCreate/UpdateTime); v2 = v1 + 0..4 fields + 0..3 index/unique/check tags on existing fields + composite indexes spanning old and new fields; " +
 		"1 of 8: static types with anonymous embedding (gorm.Model, soft delete); 1 of 8: a related family (belongs-to, has-many, many2many, self reference, has-one added in v2) migrated as a random permutation/subset through ReorderModels; " +
 		"distinct = (key shape, set of v1 tag features, set of added features) resp. (family, argument order, additions); non-trivial = v2 adds something and the whole history ran",
 	Assumptions: []string{
 		"values are non-zero, distinct per row and satisfy every generated CHECK; data that would make the database itself refuse the new constraint (duplicates under a new unique index, a new NOT NULL column without constant default, a non-constant default on ADD COLUMN, a unique constraint on an added column that has a constant default) is not generated",
 		"schema-changing statement = text starting with CREATE/ALTER/DROP or containing RENAME/__temp on the recording driver (the SQLite dialector rebuilds tables through <table>__temp)",
-		"column introspection is the external SQLite dialector's DDL parser; tag values whose non-idempotence is caused there are not generated (listed in the engine's package comment)",
+		"column introspection is the external SQLite dialector's DDL parser (gorm.io/driver/sqlite, not under /repo); tag values whose non-idempotence is caused there are not generated: parenthesised expression defaults `default:(abs(-5))` / `default:(lower('AB'))` (its regexp strips only the opening parenthesis), `type:decimal(10,2)` (its column regexp stops at the comma), `type:tinyint(1)`-style lengths on integer kinds",
+		"models that contradict themselves (type:varchar(64) with size:32, a type tag carrying NOT NULL/DEFAULT clauses, autoIncrement on a non-key column) and changes other than additions (altered types, defaults, sizes, dropped fields, columns added to an existing index) are outside the statement and not generated",
 		"index column order is compared as a set (equal priorities leave the order to sort.Slice)",
 	},
 	Cases: func(tier string) int {
 		if tier == "thorough" {
-			return 40000
+			return 120000
 		}
-		return 1600
+		return 4000
 	},
 	Batch:         func(string) int { return 50 },
 	Run:           run,
